@@ -1476,9 +1476,14 @@ class SpaceManager(SharedSpaceOperations):
                 if self.get_deriv_bases(c, defined_only=True)[0] is not cells:
                     continue   # Skip when c is derived from another base
             space.clear_subs_rootitems()
-            space.cells[cells.name].on_set_property(
+            c.on_set_property(
                 flags, define, func, enable_cache
             )
+            if c is not cells:
+                # A derived cells carries the properties of its base,
+                # which may have changed from another cells
+                c.is_cached = cells.is_cached
+                c.allow_none = cells.allow_none
             define = False  # Do not define derived cells
 
     def set_cells_formula(self, cells, func):
